@@ -364,7 +364,7 @@ func cacheSequential(r *simrt.Run, tier string) {
 	if i < 0 {
 		return
 	}
-	for lvl := 1; lvl <= 2; lvl++ {
+	for _, lvl := range []int{1, 2, 4} { // level 3 needs a second client
 		relaxed := &cacheModel{limit: limit, relaxed: lvl}
 		if j, _ := relaxed.checkSequential(ops); j < 0 {
 			r.Fail(relaxedClass[lvl], "single client, limit=%d expire=%v: %s: %s", limit, expire, relaxedWhat[lvl], describeFailure(limit, ops, i, before))
@@ -479,7 +479,7 @@ func cacheConcurrent(r *simrt.Run, tier string) {
 	case linUnknown:
 		r.Probe("porcupine-unknown")
 	case linIllegal:
-		for lvl := 1; lvl <= 3; lvl++ {
+		for lvl := 1; lvl <= 4; lvl++ {
 			switch checkCacheHistory(limit, lvl, ops) {
 			case linOK:
 				r.Fail(relaxedClass[lvl], "%d clients, limit=%d expire=%v: the history is only explained if %s:%s", clients, limit, expire, relaxedWhat[lvl], describeOps(ops))
@@ -495,8 +495,9 @@ func cacheConcurrent(r *simrt.Run, tier string) {
 
 // classes of the known-finding family "the expiry task deletes by key" (cachemodel_test.go, cacheModel.relaxed)
 var relaxedClass = [...]string{"", "cache-fresh-set-deleted-by-expiry-of-previous-entry", "cache-fresh-set-deleted-by-expiry-of-deleted-or-evicted-entry",
-	"cache-fresh-set-deleted-by-orphan-timer-of-set-racing-del"}
+	"cache-fresh-set-deleted-by-orphan-timer-of-set-racing-del", "cache-fresh-set-deleted-by-second-expiry-task-in-flight"}
 
 var relaxedWhat = [...]string{"", "a value set over an entry whose timer was due disappeared although it was neither deleted, evicted nor old enough to expire",
 	"a value set after the key's previous entry was deleted (Del) or evicted while that entry's timer was due disappeared although it was neither deleted, evicted nor old enough to expire",
-	"a Del overlapping a Set of the same key left that Set's timer behind and the timer later deleted a newer value that was neither deleted, evicted nor old enough to expire"}
+	"a Del overlapping a Set of the same key left that Set's timer behind and the timer later deleted a newer value that was neither deleted, evicted nor old enough to expire",
+	"two expiry tasks of one key were in flight at once (Sets over entries whose timers were due, e.g. SetWithExpire below the 1 s timer tick, which runs the expiry at once and asynchronously): the first removed the entry, the second deleted a value stored afterwards that was neither deleted, evicted nor old enough to expire"}
